@@ -244,3 +244,110 @@ def find_cycles(edges):
         elif t not in path and len(path) < 8:
           stack.append((t, path + [t]))
   return [c[1] for c in cycles]
+
+
+# --------------------------------------------------------------------------
+# Intraprocedural held-lock dataflow on the statement CFG
+
+
+def lock_events(node, names):
+  """[(op, lock)] performed by a CFG node, op in acquire/try/release.
+
+  `with L:` enter/exit count as acquire/release; `L.acquire(False)` as a test
+  atom is a conditional acquire (`try`): held on the T edge only."""
+  out = []
+  if node.kind == 'with_enter':
+    for i in node.ast.items:
+      d = dotted(i.context_expr)
+      if d in names:
+        out.append(('acquire', d))
+    return out
+  if node.kind == 'with_exit':
+    for i in node.ast.items:
+      d = dotted(i.context_expr)
+      if d in names:
+        out.append(('release', d))
+    return out
+  for sub in node.subnodes():
+    if isinstance(sub, ast.Call) and isinstance(sub.func, ast.Attribute):
+      d = dotted(sub.func.value)
+      if d not in names:
+        continue
+      if sub.func.attr == 'acquire':
+        nb = bool(sub.args) and isinstance(sub.args[0], ast.Constant) and \
+            sub.args[0].value is False
+        out.append(('try' if (nb and node.kind == 'test') else 'acquire', d))
+      elif sub.func.attr == 'release':
+        out.append(('release', d))
+  return out
+
+
+NONRAISING_CALLS = frozenset([
+    'acquire', 'release', 'notify', 'notify_all', 'is_set', 'has_expired',
+    'locked', 'set', 'clear'
+])
+
+
+def implicit_raise_ignorable(node):
+  """exc edges of nodes that only call lock primitives are not followed."""
+  calls = [s for s in node.subnodes() if isinstance(s, ast.Call)]
+  return bool(calls) and all(last_attr(c) in NONRAISING_CALLS for c in calls)
+
+
+def ignorable_exc(node, names):
+  """Implicit exception edges that lock primitives cannot take."""
+  if node.kind == 'with_enter':
+    return all(dotted(i.context_expr) in names for i in node.ast.items)
+  return implicit_raise_ignorable(node)
+
+
+def held_dataflow(g, names):
+  """(must, may): node id -> frozenset of locks held on entry to the node."""
+  names = set(names)
+  full = frozenset(names)
+  must = {n.id: full for n in g.nodes}
+  may = {n.id: frozenset() for n in g.nodes}
+  must[g.entry.id] = frozenset()
+
+  def out_sets(n, label, s_must, s_may):
+    if label == 'exc' and ignorable_exc(n, names):
+      return None
+    m1, m2 = set(s_must), set(s_may)
+    for op, lk in lock_events(n, names):
+      if op == 'acquire':
+        if label != 'exc':
+          m1.add(lk)
+          m2.add(lk)
+        else:
+          m2.add(lk)  # may or may not have been taken when it raised
+      elif op == 'try':
+        if label == 'T':
+          m1.add(lk)
+          m2.add(lk)
+      elif op == 'release':
+        m1.discard(lk)
+        m2.discard(lk)
+    return frozenset(m1), frozenset(m2)
+
+  changed = True
+  it = 0
+  while changed and it < 200:
+    changed = False
+    it += 1
+    for n in g.nodes:
+      if n is g.entry:
+        continue
+      ins_must, ins_may = None, set()
+      for l, p in n.preds:
+        o = out_sets(p, l, must[p.id], may[p.id])
+        if o is None:
+          continue
+        ins_must = o[0] if ins_must is None else (ins_must & o[0])
+        ins_may |= o[1]
+      if ins_must is None:
+        ins_must = frozenset()
+      ins_may = frozenset(ins_may)
+      if ins_must != must[n.id] or ins_may != may[n.id]:
+        must[n.id], may[n.id] = ins_must, ins_may
+        changed = True
+  return must, may
